@@ -454,12 +454,14 @@ class PteraTransformer(NodeTransformer):
         if ann and isinstance(target, ast.Name):
             evaluated = self._evaluate(ann)
             previous = self.annotated.get(target.id, None)
-            if isinstance(previous, (Tag, TagSet)) and isinstance(
-                evaluated, (Tag, TagSet)
-            ):
+            if isinstance(previous, (Tag, TagSet)):
                 # The variable is annotated at several places: remember all
-                # the tags, so that selectors on any of them can match
-                evaluated = previous & evaluated
+                # the tags, so that selectors on any of them can match (an
+                # annotation that carries no tag does not erase them)
+                if isinstance(evaluated, (Tag, TagSet)):
+                    evaluated = previous & evaluated
+                else:
+                    evaluated = previous
             self.annotated[target.id] = evaluated
             self.linenos[target.id] = target.lineno
         ann_arg = ann if ann else ast.Constant(value=None)
